@@ -42,7 +42,11 @@ class _BaseITML(MahalanobisMixin):
     # init bounds
     if bounds is None:
       X = np.unique(np.vstack(pairs), axis=0)
-      self.bounds_ = np.percentile(pairwise_distances(X), (5, 95))
+      # distances between distinct points only: the zero diagonal of the
+      # distance matrix is not a pairwise distance (with few points it alone
+      # made the 5th percentile zero)
+      dist = pairwise_distances(X)[np.triu_indices(X.shape[0], k=1)]
+      self.bounds_ = np.percentile(dist, (5, 95))
     else:
       bounds = check_array(bounds, allow_nd=False, ensure_min_samples=0,
                            ensure_2d=False)
